@@ -2716,6 +2716,60 @@ fn main() {
             println!("first_bad={}", verdict);
             std::process::exit(0);
         }
+        // table_write_transient_fault_sweep : 60 keys are written and flushed, written again and flushed while exactly the k-th mutating
+        // operation on a table file fails once (k = 1, 2, ... until the fault is no longer reached). Whatever the flush reports, every key
+        // must afterwards read its second value or an error - never the first value, never "not found" - also after a reopen
+        "table_write_transient_fault_sweep" => {
+            use raindb::{ReadOptions, WriteOptions};
+            let (mut cases, mut bad, mut first) = (0usize, 0usize, String::new());
+            for k in 1..=80usize {
+                let fs = rdbv::faultfs::FaultFs::new();
+                let mut o = raindb::DbOptions::with_memory_env();
+                o.filesystem_provider = std::sync::Arc::new(fs.clone());
+                o.db_path = "db".to_string();
+                o.create_if_missing = true;
+                o.max_block_size = 512;
+                let keys: Vec<Vec<u8>> = (0..60u32).map(|i| format!("key{:03}", i).into_bytes()).collect();
+                let mut hit = false;
+                {
+                    let db = raindb::DB::open(o.clone()).expect("open");
+                    for key in &keys { db.put(WriteOptions::default(), key.clone(), [&b"first-"[..], key].concat().repeat(3)).unwrap(); }
+                    let _ = db.flush_for_verif();
+                    for key in &keys { db.put(WriteOptions::default(), key.clone(), [&b"second-"[..], key].concat().repeat(3)).unwrap(); }
+                    fs.arm(".rdb", k, false);
+                    let flushed = db.flush_for_verif();
+                    hit = fs.failures() > 0;
+                    fs.disarm();
+                    if !hit { break; }
+                    cases += 1;
+                    let wrong: Vec<String> = keys.iter().filter_map(|key| match db.get(ReadOptions::default(), key) {
+                        Ok(val) if val == [&b"second-"[..], key].concat().repeat(3) => None,
+                        Ok(val) => Some(format!("{}={}", String::from_utf8_lossy(key), String::from_utf8_lossy(&val[..6.min(val.len())]))),
+                        Err(raindb::RainDBError::KeyNotFound) => Some(format!("{}=notfound", String::from_utf8_lossy(key))),
+                        Err(_) => None,
+                    }).collect();
+                    if !wrong.is_empty() {
+                        bad += 1;
+                        if first.is_empty() { first = format!("k={} flush reported {}: {} keys wrong, e.g. {}", k, if flushed { "Ok" } else { "an error" }, wrong.len(), wrong[0]); }
+                    }
+                }
+                if let Ok(db) = raindb::DB::open(o.clone()) {
+                    let wrong = keys.iter().filter(|key| match db.get(ReadOptions::default(), key) {
+                        Ok(val) => val != [&b"second-"[..], key.as_slice()].concat().repeat(3),
+                        Err(raindb::RainDBError::KeyNotFound) => true,
+                        Err(_) => false,
+                    }).count();
+                    if wrong > 0 {
+                        bad += 1;
+                        if first.is_empty() { first = format!("k={} after a reopen {} keys read an older value / not found", k, wrong); }
+                    }
+                }
+                let _ = hit;
+            }
+            println!("cases={}", cases);
+            println!("bad={}", bad);
+            println!("first_bad={}", first);
+        }
         // filter_block_layout <offset>:<keys> ... : data blocks at these offsets with this many keys each, Bloom policies of 1, 10 and 64 bits per key
         "filter_block_layout" => {
             let (mut keys, mut rejected, mut first) = (0usize, 0usize, String::new());
@@ -3201,6 +3255,86 @@ fn main() {
                     println!("lost={}", lost);
                 }
             }
+            db.hold_background_for_verif(false);
+            db.notify_background_signal_for_verif();
+            std::process::exit(0);
+        }
+        // two_wal_crash_reopen : the memtable is rotated (second log) while the background thread is held; the files are copied at that
+        // moment (crash image with two logs). The image is opened with log reuse (the newest log is small: it is reused, the older
+        // one becomes a table), closed, and opened again: after the first open only the reused log may be left, the second open must
+        // not write another table, and every acknowledged key is readable
+        "two_wal_crash_reopen" => {
+            use raindb::{ReadOptions, WriteOptions};
+            let fs = std::sync::Arc::new(raindb::fs::InMemoryFileSystem::new());
+            let mut o = raindb::DbOptions::with_memory_env();
+            o.filesystem_provider = fs.clone();
+            o.db_path = "db".to_string();
+            o.create_if_missing = true;
+            o.reuse_log_files = true;
+            o.max_memtable_size = 64 * 1024;
+            let mut keys: Vec<Vec<u8>> = vec![];
+            let db = raindb::DB::open(o.clone()).expect("open");
+            db.hold_background_for_verif(true);
+            let wals0 = v::wal_numbers(&o);
+            for i in 0..80u32 {
+                let k = format!("key{:04}", i).into_bytes();
+                db.put(WriteOptions::default(), k.clone(), vec![b'x'; 1024]).unwrap();
+                keys.push(k);
+                if v::wal_numbers(&o) != wals0 {
+                    break;
+                }
+            }
+            db.put(WriteOptions::default(), b"tail".to_vec(), b"t".to_vec()).unwrap();
+            keys.push(b"tail".to_vec());
+            println!("wals_at_crash={:?}", v::wal_numbers(&o));
+            let image = std::sync::Arc::new(raindb::fs::InMemoryFileSystem::new());
+            {
+                use raindb::fs::FileSystem;
+                for dir in ["db", "db/wal", "db/data"] {
+                    let _ = image.create_dir_all(std::path::Path::new(dir));
+                    for p in fs.list_dir(std::path::Path::new(dir)).unwrap_or_default() {
+                        if fs.is_dir(&p).unwrap_or(false) {
+                            continue;
+                        }
+                        if let Ok(f) = fs.open_file(&p) {
+                            let len = f.len().unwrap_or(0) as usize;
+                            let mut buf = vec![0u8; len];
+                            let _ = f.read_from(&mut buf, 0);
+                            if let Ok(mut w) = image.create_file(&p, false) {
+                                let _ = w.append(&buf);
+                            }
+                        }
+                    }
+                }
+            }
+            let mut o2 = o.clone();
+            o2.filesystem_provider = image;
+            o2.max_memtable_size = 4 * 1024 * 1024;
+            let mut lost = 0;
+            let mut report = |tag: &str, o2: &raindb::DbOptions| {
+                let w = v::wal_numbers(o2);
+                println!("wals_after_{}={:?}", tag, w);
+                println!("tables_after_{}={}", tag, v::table_numbers(o2).len());
+                w
+            };
+            match raindb::DB::open(o2.clone()) {
+                Err(e) => println!("first_reopen=err {:?}", e),
+                Ok(db2) => {
+                    lost += keys.iter().filter(|k| db2.get(ReadOptions::default(), k).is_err()).count();
+                    println!("first_reopen=ok");
+                }
+            }
+            let w1 = report("first_reopen", &o2);
+            println!("dead_wal_kept={}", w1.len() > 1);
+            match raindb::DB::open(o2.clone()) {
+                Err(e) => println!("second_reopen=err {:?}", e),
+                Ok(db2) => {
+                    lost += keys.iter().filter(|k| db2.get(ReadOptions::default(), k).is_err()).count();
+                    println!("second_reopen=ok");
+                }
+            }
+            report("second_reopen", &o2);
+            println!("lost={}", lost);
             db.hold_background_for_verif(false);
             db.notify_background_signal_for_verif();
             std::process::exit(0);
